@@ -13,7 +13,18 @@ let ds_of (mask, id) : datum list =
   if mask land 1 = 1 then [ DFixed (le32 id); DNull; DFixed (le32 (id + 1)) ] else [ DFixed (le32 id); DFixed (le32 7); DFixed (le32 (id + 1)) ]
 let mk_tup r (mask, id) : tup =
   let ds = ds_of (mask, id) in
-  { tp_head = rbytes r 18; tp_natts = zi 3; tp_flags2 = zi (rint r 32); tp_infomask = zi mask;
+  (* t_xmin (bytes 0..3), t_xmax (4..7), t_cid/t_xvac (8..11), t_ctid (12..17): mostly random, but also zero xmin / zero xmax /
+     all zero / xmin = xmax — classification must look at the hint bits only, never at these fields (seeded change C09-9) *)
+  { tp_head = (let h = rbytes r 18 in
+               let z4 = List.init 4 (fun _ -> byte_of_int 0) in
+               let sub a b l = List.filteri (fun i _ -> i >= a && i < b) l in
+               match rint r 8 with
+               | 0 -> sub 0 4 h @ z4 @ sub 8 18 h
+               | 1 -> z4 @ sub 4 18 h
+               | 2 -> List.init 18 (fun _ -> byte_of_int 0)
+               | 3 -> sub 0 4 h @ sub 0 4 h @ sub 8 18 h
+               | _ -> h);
+    tp_natts = zi 3; tp_flags2 = zi (rint r 32); tp_infomask = zi mask;
     tp_hoff = zi 24; tp_mid = (if mask land 1 = 1 then bitmap_of ds else [ byte_of_int 0 ]); tp_data = fill (zi 0) cols3 ds }
 let mk_page r (ts : (int * int) list) : page =
   let n = List.length ts in
